@@ -82,7 +82,7 @@ Section Refine.
     - cbn [rbind]. rewrite abs_nth_none by lia. finish.
     - destruct (read_at p v i ltac:(lia) B) as (x & N & R).
       rewrite N.
-      destruct (slot p v i) as [k|]; cbn [rbind] in *; [|discriminate].
+      destruct (slot p v i) as [k| |fn0 a0]; cbn [rbind] in *; try discriminate.
       rewrite R. cbn [rbind]. finish.
   Qed.
 
@@ -130,7 +130,7 @@ Section Refine.
     intros H B. pose proof (vlen_bound v) as VB. unfold sim. cbn [impl_step spec_step fst snd]. unfold s_get.
     destruct (i <? vlen v) eqn:E.
     - destruct (read_at p v i ltac:(lia) B) as (x & N & R). rewrite N.
-      destruct (slot p v i) as [k|]; cbn [rbind] in *; [|discriminate].
+      destruct (slot p v i) as [k| |fn0 a0]; cbn [rbind] in *; try discriminate.
       rewrite R. cbn [rbind]. finish.
     - cbn [rbind]. rewrite abs_nth_none by lia. finish.
   Qed.
@@ -234,7 +234,7 @@ Section Refine.
       destruct (vlen v - 1 <? i) eqn:E.
       + cbn [rbind]. rewrite abs_nth_none by lia. finish.
       + destruct (read_at p v i ltac:(lia) B) as (x & N & R). rewrite N.
-        destruct (slot p v i) as [k|]; cbn [rbind] in *; [|discriminate].
+        destruct (slot p v i) as [k| |fn0 a0]; cbn [rbind] in *; try discriminate.
         rewrite R. cbn [rbind]. finish.
   Qed.
 
